@@ -29,6 +29,10 @@ type srvEnv struct {
 	key  *btcec.PrivateKey
 	id   discover.NodeID
 	addr string
+	// what a well-behaved client needs (a server in another process provides
+	// them as fixed bytes)
+	statusPayload func() []byte
+	probeMsg      func() amsg
 }
 
 func newSrvEnv(r *fw.Rand) (*srvEnv, error) {
@@ -45,7 +49,8 @@ func newSrvEnv(r *fw.Rand) (*srvEnv, error) {
 	if err := srv.Start(context.Background()); err != nil {
 		return nil, err
 	}
-	return &srvEnv{aq: aq, srv: srv, key: key, id: pubID(key), addr: srv.ListenAddr}, nil
+	return &srvEnv{aq: aq, srv: srv, key: key, id: pubID(key), addr: srv.ListenAddr,
+		statusPayload: func() []byte { return aq.goodStatus(64).payload }, probeMsg: aq.probe}, nil
 }
 
 func (e *srvEnv) dial() (net.Conn, error) {
@@ -162,8 +167,7 @@ func (e *srvEnv) fullPeer(c *fw.Ctx, r *fw.Rand, helloVersion uint64) (*wireClie
 		}
 		return nil, fmt.Sprintf("status: %v", err)
 	}
-	st := e.aq.goodStatus(64)
-	if err := w.send(baseLen+aquaStatus, st.payload); err != nil {
+	if err := w.send(baseLen+aquaStatus, e.statusPayload()); err != nil {
 		w.conn.Close()
 		return nil, "status send: " + err.Error()
 	}
@@ -174,7 +178,7 @@ func (e *srvEnv) fullPeer(c *fw.Ctx, r *fw.Rand, helloVersion uint64) (*wireClie
 // the sending direction after the query (the server then sees the end of the
 // stream instead of waiting for bytes a hostile frame promised).
 func (e *srvEnv) wireAlive(w *wireClient, endWrite bool) (bool, error) {
-	p := e.aq.probe()
+	p := e.probeMsg()
 	if err := w.send(baseLen+p.Code, p.payload); err != nil {
 		return false, err
 	}
@@ -418,6 +422,12 @@ func runServer(c *fw.Ctx) {
 				}
 			})
 		}
+	}
+
+	// disconnect messages with every kind of reason, against a server in a
+	// process of its own (a crash there is observed, not suffered)
+	if !race {
+		runDiscReasonLattice(c)
 	}
 
 	// ---- after the attack -----------------------------------------------------------
